@@ -20,6 +20,15 @@ CLAIMED = {
             "pairs, linear, satisfy Parseval, equal the centred DFT (origin at the centre sample) and obey the shift "
             "theorem for every complex input and every delta>0 at each listed size (1-D N<=5 quick / <=8 thorough, "
             "2-D N<=4 / <=6, batch shapes); decided per size by z3 over exact algebraic twiddles", ""),
+    "C10": ("4 C10", "angularSpectrum (any magnification), oneStepFresnel, twoStepFresnel (both the m!=1 and the ZeroDivisionError m==1 path), "
+            "lensAgainst conserve sum|U|^2 d^2 (per-element unit-modulus lemmas with the physically expected stage scalars, then a chain "
+            "query in the parameters) and are linear (linear-combination cut), for every complex field and every wavelength/spacing/distance "
+            "of either sign at N in {2,4,8} quick / up to 16 thorough; ft2/ift2 replaced by their C09 contract; monolithic exact-DFT cross-check at N=2", ""),
+    "C11": ("4 C11", "algebraic part only: z=0 returns the input; unit-magnification group law P(z2)oP(z1)=P(z1+z2), P(-z)oP(z)=id; "
+            "m then 1/m recovers the input; lensAgainst = oneStepFresnel(U*lens); twoStepFresnel = two chained oneStepFresnel through z/(1-m) "
+            "with output spacing d2; each also after a history of other calls; N in {2,4} quick / up to 8 thorough; "
+            "NOT claimed: angular-spectrum vs Fresnel agreement, Gaussian beam, Airy pattern (not algebraic identities)",
+            "Angle relations between chirp phases are each proved by the solver before use; ft2/ift2 contract from C09."),
     "C17": ("5 C17", "all converters of atmos_conversions and _astronomy: the six inverse pairs (explicit and default wavelength), "
             "composites = compositions, scaling exponents (lambda^(6/5), Cn2^(-3/5), lambda^(-1/5), r0^(-5/3), d^(-1/3)), "
             "single-layer theta0/tau0 = C r0/h with 0.313<C<0.315, axis argument = loop over profiles for rank 1-3 arrays and every "
